@@ -285,7 +285,7 @@ theorem invPlace_step (cfg : Cfg) (s : State) (e : Event) (s' : State) (hI : Inv
     have hf := pframe_bat_upd (B' := B.noteProduce out) hB rfl rfl rfl
     refine hI.of_frame pframe_calls_id.1 pframe_calls_id.2 hf.1 hf.2 ?_
     intro t e he
-    simp only [produced] at he
+    rw [produced_log] at he
     split at he
     · by_cases ht : t = tp
       · subst ht
